@@ -33,7 +33,8 @@ def fixture_batch():
         r = pipeline.parse_text(text)
         if r[0] != "ok":
             raise RuntimeError("fixture %s does not parse: %s" % (f, r[1:]))
-        batch.append({"id": os.path.basename(f), "toks": lexer.lex(text), "tree": proj.proj_tree(r[1])})
+        batch.append({"id": os.path.basename(f), "toks": lexer.lex(text), "tree": proj.proj_tree(r[1]),
+                      "op": "", "base": [], "i": 0, "x": 0, "groups": []})
     return batch
 
 
